@@ -146,6 +146,8 @@ def explore(name: str, fn, *, allowed_exc: tuple = (), max_paths: int = 20000, t
                 # which may make the rest of the path infeasible) still count
                 had = False
                 for ch in c.checks:
+                    if ch["verdict"] == "ok":
+                        res.clause_counts.setdefault(ch["name"], {"ok": 0, "cex": 0})["ok"] += 1
                     if ch["verdict"] == "cex":
                         had = True
                         cc = res.clause_counts.setdefault(ch["name"], {"ok": 0, "cex": 0})
